@@ -515,5 +515,41 @@ def true_result_points(f):
             if v is None:
                 out.append((i, "non-constant result"))
             elif v & 1:
-                out.append((i, "status = true"))
+                late = _true_survives_at(f, i, cells)
+                if late is None:
+                    out.append((i, "status = true"))
+                else:
+                    out += [(x, "status = true (initialised true, not reset on this path)") for x in late]
     return out
+
+
+def _true_survives_at(f, st, cells):
+    """`bool status = true; if (not ready) { ...; status = false; } else { admit }  return status;` - the result is true exactly on the paths from the
+    initialisation to the return that pass no `status = false`.  Returns the last instructions of those paths before they join the return block (the guards
+    that hold there are the guards of a true result), or None when the store is not such an initialisation."""
+    cell = st["ptr"]["id"]
+    falses = [x for x in f.all_insts() if x.op == "store" and x["ptr"].get("k") == "inst" and x["ptr"]["id"] == cell and x is not st and
+              rules.const_of(f, x["val"]) is not None and (rules.const_of(f, x["val"]) & 1) == 0]
+    if not falses or not all(f.dominates(st, x) for x in falses):
+        return None
+    kill = {x.bb.id for x in falses}
+    rets = [r for r in f.all_insts() if r.op == "ret" and "val" in r.d and (rules.load_source(f, r["val"]) or (None, None))[1] == cell]
+    if len(rets) != 1:
+        return None
+    R = rets[0].bb
+    # blocks reachable from the initialisation without passing a killing block
+    seen = set()
+    work = [st.bb.id]
+    while work:
+        b = work.pop()
+        if b in seen or b in kill:
+            continue
+        seen.add(b)
+        work += f.bmap[b].succ
+    pts = []
+    for pb in R.pred:
+        if pb in seen:
+            pts.append(f.bmap[pb].term)
+    if not pts or st.bb.id in [x.bb.id for x in pts]:
+        return None
+    return pts
